@@ -9,6 +9,7 @@ Part B (validity): the algebraic normalisation steps with which the generators e
 numerical routines (`qr`, `eigh`, `inv`) enter as hypotheses.
 -/
 import NumqiProofs.SeedFlowLemmas
+import NumqiProofs.RandNormLemmas
 import Mathlib.LinearAlgebra.Matrix.PosDef
 import Mathlib.LinearAlgebra.UnitaryGroup
 import Mathlib.Analysis.InnerProductSpace.Basic
@@ -60,83 +61,108 @@ example :
     (run lcg [.drawGlobal .numpy .done] (fun _ _ => false) 5 0 7 ⟨[], 1, 0, 0, 0, []⟩).obs ≠
     (run lcg [.drawGlobal .numpy .done] (fun _ _ => false) 5 0 7 ⟨[], 2, 0, 0, 0, []⟩).obs := by decide
 
-/-! ## B. validity: the final normalisation step of each generator, over exact fields
+/-! ## B. validity: the final normalisation step of each generator
 
-Each lemma is the algebra behind the last lines of one generator; the LAPACK routine that precedes it is a hypothesis.
-What is *not* proved here and is covered by the probe only: `rand_special_orthogonal_matrix` (`det exp = exp tr`, see C01),
-`rand_choi_op` (partial-trace bookkeeping, see C12), `rand_SpF2` (indexing of Sp(2n,F2), see C09), rank statements. -/
+The functions below are the constants of `NumqiModel/RandNorm.lean` — the model of the last lines of each generator — which
+`Driver/C10.lean` executes (op `nz …`) on the raw draws and LAPACK intermediates captured from the real generator and which the harness
+compares with the real output (`harness/c10.py:validity_tie`).  The theorems are about these constants at `K = ℂ`
+(`conj = star`, `rsqrt`/`invSqrt0`/`rootN`/`sgn1` acting on the real part); `toMat m n f` is the Mathlib matrix with entries `f i j`.
+Hypotheses are the contracts of the numerical routines (`qr`: `Q` unitary; `eigh`: `V` unitary, `S = V Λ Vᴴ`, `λ > 0`; `inv`: `M⁻¹ M = 1`),
+not the conclusions.  Not covered here (C01): `rand_special_orthogonal_matrix` = `to_special_orthogonal_exp` (`soExp_real_det_one`,
+`soExp_complex_det_one`); probe only: ranks, `rand_separable_dm`, `rand_bipartite_state(k)`, `rand_ABk_density_matrix`,
+matrix-subspace generators, `rand_F2`, `rand_SpF2` (C09). -/
 
 section validity
-open Matrix
-open scoped ComplexOrder
+open Matrix Numqi.RandNorm
+open scoped ComplexOrder Numqi.RandNorm
 
-/-- `rand_haar_state`, `rand_n_sphere`: `ret /= norm(ret)` is a unit vector (for a non-zero draw) -/
-theorem haar_state_unit {E : Type*} [NormedAddCommGroup E] [NormedSpace ℝ E] (v : E) (hv : v ≠ 0) :
-    ‖(‖v‖⁻¹ : ℝ) • v‖ = 1 := by
-  rw [norm_smul, norm_inv, norm_norm, inv_mul_cancel₀ (norm_ne_zero_iff.2 hv)]
+/-- `rand_haar_state`, `rand_n_sphere`: the returned vector has unit norm (for a non-zero draw) -/
+theorem haar_state_unit (n : Nat) (v : Nat → ℂ) (h : normSq n v ≠ 0) : normSq n (normalize n v) = 1 :=
+  normSq_normalize n v h
 
-/-- `rand_n_ball`: a unit vector scaled by `u^(1/d) ∈ [0,1]` lies in the ball -/
-theorem n_ball_mem {E : Type*} [NormedAddCommGroup E] [NormedSpace ℝ E] (u : E) (hu : ‖u‖ = 1) (r : ℝ)
-    (h0 : 0 ≤ r) (h1 : r ≤ 1) : ‖r • u‖ ≤ 1 := by
-  rw [norm_smul, hu, mul_one, Real.norm_of_nonneg h0]; exact h1
+/-- `rand_n_ball`: the returned point has norm `u^(1/n)`, inside the unit ball for a uniform draw `u ∈ [0,1]` -/
+theorem n_ball_mem (n : Nat) (v : Nat → ℂ) (u : ℂ) (h : normSq n v ≠ 0) (hu0 : 0 ≤ u.re) (hu1 : u.re ≤ 1) :
+    ∃ ρ : ℝ, 0 ≤ ρ ∧ ρ ≤ 1 ∧ normSq n (ballPoint n v u) = ((ρ * ρ : ℝ) : ℂ) := by
+  refine ⟨u.re ^ ((1 : ℝ) / n), Real.rpow_nonneg hu0 _, Real.rpow_le_one hu0 hu1 (by positivity), ballPoint_normSq n v u h⟩
 
-/-- `rand_haar_unitary`: `Q * sign(diag R)` (column scaling by unimodular numbers) is unitary when `Q` is
-(contract: `np.linalg.qr` returns a unitary `Q`) -/
-theorem qr_sign_fix_unitary {n R : Type*} [Fintype n] [DecidableEq n] [CommRing R] [StarRing R]
-    (Q : Matrix n n R) (d : n → R) (hQ : Q ∈ Matrix.unitaryGroup n R) (hd : ∀ i, star (d i) * d i = 1) :
-    Q * Matrix.diagonal d ∈ Matrix.unitaryGroup n R := by
+/-- `rand_haar_unitary`: `Q * sign(diag R)` is unitary whenever the `Q` returned by `np.linalg.qr` is -/
+theorem haar_unitary_signFix (n : Nat) (Q : Nat → Nat → ℂ) (d : Nat → ℂ)
+    (hQ : toMat n n Q ∈ Matrix.unitaryGroup (Fin n) ℂ) : toMat n n (signFix Q d) ∈ Matrix.unitaryGroup (Fin n) ℂ := by
+  rw [toMat_signFix]
   rw [Matrix.mem_unitaryGroup_iff'] at hQ ⊢
   rw [star_eq_conjTranspose] at hQ ⊢
-  rw [conjTranspose_mul, diagonal_conjTranspose, Matrix.mul_assoc, ← Matrix.mul_assoc Qᴴ, hQ, Matrix.one_mul,
+  rw [conjTranspose_mul, diagonal_conjTranspose, Matrix.mul_assoc, ← Matrix.mul_assoc (toMat n n Q)ᴴ, hQ, Matrix.one_mul,
     diagonal_mul_diagonal, ← diagonal_one]
   congr 1
   funext i
-  simpa using hd i
+  simpa using sgn1_unimodular (d i.val)
 
-/-- `rand_density_matrix`: `G Gᴴ / tr(G Gᴴ)` has trace one and is positive semidefinite, for any `dim × k` matrix `G`
-with non-zero Frobenius norm (`kind='haar'`: `G` Ginibre; `kind='bures'`: `G = (U+1)·Ginibre`) -/
-theorem density_matrix {n k : Type*} [Fintype n] [Fintype k] (G : Matrix n k ℂ) (htr : (G * Gᴴ).trace ≠ 0) :
-    (((G * Gᴴ).trace)⁻¹ • (G * Gᴴ)).trace = 1 ∧ (((G * Gᴴ).trace)⁻¹ • (G * Gᴴ)).PosSemidef := by
+/-- `rand_density_matrix` (both kinds: for `bures` take `G = buresPre n U G₀`): trace one and positive semidefinite -/
+theorem density_matrix_valid (n k : Nat) (G : Nat → Nat → ℂ) (htr : traceN n (gram k G) ≠ 0) :
+    (toMat n n (densityMatrix n k G)).trace = 1 ∧ (toMat n n (densityMatrix n k G)).PosSemidef := by
+  rw [toMat_densityMatrix]
+  have htr' : (toMat n k G * (toMat n k G)ᴴ).trace ≠ 0 := by rwa [← toMat_gram, ← traceN_eq]
   constructor
-  · rw [trace_smul, smul_eq_mul, inv_mul_cancel₀ htr]
-  · have h := Matrix.posSemidef_self_mul_conjTranspose G
+  · rw [trace_smul, smul_eq_mul, inv_mul_cancel₀ htr']
+  · have h := Matrix.posSemidef_self_mul_conjTranspose (toMat n k G)
     exact h.smul (inv_nonneg.2 h.trace_nonneg)
 
-/-- `rand_povm`: with `T = S^{-1/2}` for `S = Σ A_i` (contract of the `eigh`-based inverse square root: `T S T = 1`)
-the operators `T A_i T` resolve the identity … -/
-theorem povm_resolves {n ι : Type*} [Fintype n] [DecidableEq n] [Fintype ι] (A : ι → Matrix n n ℂ) (T : Matrix n n ℂ)
-    (hT : T * (∑ i, A i) * T = 1) : ∑ i, T * A i * T = 1 := by
-  rw [← hT, Matrix.mul_sum, Matrix.sum_mul]
+/-- `rand_povm`: with the `eigh` contract for `S = Σ_s B_s B_sᴴ` (the matrix `povmSum`, which the tie compares with the array handed to
+`np.linalg.eigh`), the returned operators resolve the identity and each is positive semidefinite -/
+theorem povm_valid (n m : Nat) (B : Nat → Nat → Nat → ℂ) (V : Nat → Nat → ℂ) (lam : Nat → ℝ)
+    (hV : (toMat n n V)ᴴ * toMat n n V = 1) (hV' : toMat n n V * (toMat n n V)ᴴ = 1) (hpos : ∀ a, a < n → 0 < lam a)
+    (hS : toMat n n (povmSum n m B) = toMat n n V * Matrix.diagonal (fun a : Fin n => ((lam a.val : ℝ) : ℂ)) * (toMat n n V)ᴴ) :
+    (∑ s : Fin m, toMat n n (povm n B V (fun a => (lam a : ℂ)) s.val)) = 1 ∧
+      ∀ s, (toMat n n (povm n B V (fun a => (lam a : ℂ)) s)).PosSemidef := by
+  constructor
+  · simp only [toMat_povm]
+    rw [← Finset.sum_mul, ← Finset.mul_sum, ← toMat_povmSum]
+    exact invSqrt_contract n V lam _ hV hV' hpos hS
+  · intro s
+    rw [toMat_povm]
+    have h := (Matrix.posSemidef_self_mul_conjTranspose (toMat n n (B s))).mul_mul_conjTranspose_same
+      (toMat n n (invSqrtMat n V fun a => (lam a : ℂ)))
+    rwa [invSqrtMat_hermitian] at h
 
-/-- … and each of them is positive semidefinite (`T` Hermitian, `A_i = B Bᴴ ⪰ 0`) -/
-theorem povm_posSemidef {n : Type*} [Fintype n] (A T : Matrix n n ℂ) (hT : Tᴴ = T) (hA : A.PosSemidef) :
-    (T * A * T).PosSemidef := by
-  have := hA.mul_mul_conjTranspose_same T
-  rwa [hT] at this
+/-- `rand_kraus_op`: with `W = V·diag(√λ)`, the `eigh` contract `Σ_s Z_sᴴ Z_s = W Wᴴ` and the `inv` contract `M⁻¹ W = 1`
+(`Minv` is the captured output of `np.linalg.inv`), the returned set `K_s = Z_s (M⁻¹)ᴴ` is complete -/
+theorem kraus_valid (N dout din : Nat) (Z : Nat → Nat → Nat → ℂ) (Minv : Nat → Nat → ℂ) (W : Matrix (Fin din) (Fin din) ℂ)
+    (hS : ∑ s : Fin N, (toMat dout din (Z s.val))ᴴ * toMat dout din (Z s.val) = W * Wᴴ) (hinv : toMat din din Minv * W = 1) :
+    ∑ s : Fin N, (toMat dout din (krausOut din Z Minv s.val))ᴴ * toMat dout din (krausOut din Z Minv s.val) = 1 := by
+  simp only [toMat_krausOut, conjTranspose_mul, conjTranspose_conjTranspose]
+  have : ∀ s : Fin N, toMat din din Minv * (toMat dout din (Z s.val))ᴴ * (toMat dout din (Z s.val) * (toMat din din Minv)ᴴ)
+      = toMat din din Minv * ((toMat dout din (Z s.val))ᴴ * toMat dout din (Z s.val)) * (toMat din din Minv)ᴴ := by
+    intro s; simp only [Matrix.mul_assoc]
+  rw [Finset.sum_congr rfl fun s _ => this s, ← Finset.sum_mul, ← Finset.mul_sum, hS]
+  have : toMat din din Minv * (W * Wᴴ) * (toMat din din Minv)ᴴ = (toMat din din Minv * W) * (toMat din din Minv * W)ᴴ := by
+    rw [conjTranspose_mul]; simp only [Matrix.mul_assoc]
+  rw [this, hinv]; simp
 
-/-- `rand_kraus_op`: `K_s = Z_s M` with `M = (V√Λ)^{-ᴴ}` (contract of `eigh` + `inv`: `Mᴴ (Σ Z_sᴴ Z_s) M = 1`)
-is a complete Kraus set -/
-theorem kraus_complete {m n ι : Type*} [Fintype m] [Fintype n] [DecidableEq n] [Fintype ι]
-    (Z : ι → Matrix m n ℂ) (M : Matrix n n ℂ) (hM : Mᴴ * (∑ s, (Z s)ᴴ * Z s) * M = 1) :
-    ∑ s, (Z s * M)ᴴ * (Z s * M) = 1 := by
-  rw [← hM, Matrix.mul_sum, Matrix.sum_mul]
-  apply Finset.sum_congr rfl
-  intro s _
-  rw [conjTranspose_mul]
-  simp only [Matrix.mul_assoc]
+/-- `rand_hermitian_matrix(eig=…)`: `(EVC * EVL) @ EVCᴴ` is Hermitian for real `EVL` -/
+theorem hermitian_valid (n : Nat) (V : Nat → Nat → ℂ) (lam : Nat → ℝ) :
+    (toMat n n (hermEig n V fun a => (lam a : ℂ))).IsHermitian := hermEig_hermitian n V lam
 
-/-- `rand_ABk_density_matrix`: the sum over all permutations of the `k` copies is invariant under every permutation
-(`T σ` = the axis transposition `np.transpose(·, [0, 1+σ, k+1, k+2+σ])`, an additive action of the symmetric group) -/
-theorem ABk_symmetrised {G M : Type*} [Group G] [Fintype G] [AddCommMonoid M]
-    (T : G → M →+ M) (hT : ∀ a b x, T a (T b x) = T (a * b) x) (X : M) (τ : G) :
-    T τ (∑ σ, T σ X) = ∑ σ, T σ X := by
-  rw [map_sum]
+/-- `rand_choi_op`: the partial trace over the output of the returned operator is `Tᴴ · Tr_out(np0) · T`; with the contract of the
+inverse square root (`T` Hermitian, `T · Tr_out(np0) · T = 1`, see `invSqrt_contract`) it is the identity: trace preserving -/
+theorem choi_valid (din dout r : Nat) (G T : Nat → Nat → ℂ) (hT : ∀ i j, conj (T i j) = T j i)
+    (hc : ∀ i j, i < din → j < din →
+      (sumR din fun k => sumR din fun l => T i k * choiPT din dout r G k l * T l j) = if i = j then 1 else 0)
+    (i j : Nat) (hi : i < din) (hj : j < din) :
+    sumR dout (fun a => choiOut din dout r G T (i * dout + a) (j * dout + a)) = if i = j then 1 else 0 := by
+  rw [choiOut_partial_trace, ← hc i j hi hj]
   simp only [hT]
-  exact Fintype.sum_equiv (Equiv.mulLeft τ) _ _ (fun σ => rfl)
 
-/-- the hypotheses are satisfiable: the identity is unitary and `±1` are unimodular, so a sign flip of a column keeps it unitary -/
-example : (1 : Matrix (Fin 2) (Fin 2) ℂ) * Matrix.diagonal ![1, -1] ∈ Matrix.unitaryGroup (Fin 2) ℂ :=
-  qr_sign_fix_unitary 1 _ (Submonoid.one_mem _) (by intro i; fin_cases i <;> simp)
+/-- `rand_adjacent_matrix`: symmetric, zero diagonal, entries in `{0,1}` for draws in `{0,1}` -/
+theorem adjacency_valid (D : Nat → Nat → Nat) (hD : ∀ i j, D i j ≤ 1) (i j : Nat) :
+    adjacency D i j = adjacency D j i ∧ adjacency D i i = 0 ∧ adjacency D i j ≤ 1 :=
+  ⟨adjacency_symm D i j, adjacency_diag D i, adjacency_le_one D hD i j⟩
+
+/-- the hypotheses are satisfiable: the identity is unitary, so its sign-fixed version is -/
+example : toMat 2 2 (signFix (fun i j => if i = j then 1 else 0) fun _ => -3) ∈ Matrix.unitaryGroup (Fin 2) ℂ := by
+  apply haar_unitary_signFix
+  have : toMat 2 2 (fun i j => if i = j then (1 : ℂ) else 0) = 1 := by
+    ext i j; simp [toMat, Matrix.one_apply, Fin.ext_iff]
+  rw [this]; exact Submonoid.one_mem _
 
 end validity
 
